@@ -370,8 +370,8 @@ def subband(
 
 @njit(
     [
-        "void(u1[:], f4[:], i4[:], i4[:], i4, f4, f4, f4, i4, i4, i4, i4, i4, i4, i4)",
-        "void(f4[:], f4[:], i4[:], i4[:], i4, f4, f4, f4, i4, i4, i4, i4, i4, i4, i4)",
+        "void(u1[:], f4[:], i4[:], i4[:], i4, f8, f8, f8, i4, i4, i4, i4, i4, i4, i4)",
+        "void(f4[:], f4[:], i4[:], i4[:], i4, f8, f8, f8, i4, i4, i4, i4, i4, i4, i4)",
     ],
     cache=True,
 )
